@@ -127,7 +127,8 @@ def static_case(ctx, mon, rng, S):
     probs = []
     try:
         mon.reset()
-        s = S.LinearScale().domain(d).range(list(r)).clamp(clamp)
+        # a range is a pair: a tenth of the cases hand it over as a tuple
+        s = S.LinearScale().domain(d).range(tuple(r) if hash(repr(d)) % 10 == 0 else list(r)).clamp(clamp)
         ys = [s(x) for x in xs]
         ys2 = [s.scale(x) for x in xs]
         if ys != ys2:
@@ -226,7 +227,7 @@ def run_history(ctx, mon, S, case):
             if op[0] == "domain":
                 o.domain(op[2])
             elif op[0] == "range":
-                o.range(list(op[2]))
+                o.range(tuple(op[2]) if hash(repr(op[2])) % 5 == 0 else list(op[2]))
             elif op[0] == "clamp":
                 o.clamp(op[2])
             elif op[0] == "nice":
